@@ -21,6 +21,8 @@ import EasyMl.Lemmas.MapZip
 import EasyMl.Lemmas.MapMut
 import EasyMl.Lemmas.EqualBy
 import EasyMl.Lemmas.History
+import EasyMl.Lemmas.Surface
+import EasyMl.Lemmas.ViewBridge
 
 namespace EasyMl.C13
 open EasyMl EasyMl.Spec
@@ -566,5 +568,166 @@ example :
     ∃ t, Tensor.tryFrom [("a", 2), ("b", 2)] [1, 2, 3, 4] = some t ∧
       t.applyAll [.reorder ["b", "a"], .transpose ["a", "b"], .reshape [("x", 4), ("y", 1)]] =
         .ok (Tensor.ofVal ⟨[("x", 4), ("y", 1)], [1, 2, 3, 4]⟩) := ⟨_, rfl, rfl⟩
+
+/-- **Every history of in-place transformations computes the specification's history of
+    values** (this is what the `chain` operations of the correspondence compare): step by step the
+    value of the corresponding lazy view (`Spec.stepValue`), the same refusals (all `explicit`
+    panics — the `unwrap`s of the square branch never fire), and the result is the tensor storing
+    the final value with row-major strides. -/
+theorem history_refines_spec [Inhabited ν] (steps : List (InPlace ν α)) (shape : Shape ν)
+    (data : List α) (t : Tensor ν α) (ht : Tensor.tryFrom shape data = some t)
+    (harity : ∀ step ∈ steps, ∀ k, step.arity = some k → k = shape.length) :
+    t.applyAll steps =
+      match runSteps ⟨shape, data⟩ (steps.map InPlace.toSpec) with
+      | some v => .ok (Tensor.ofVal v)
+      | none => .panic .explicit :=
+  applyAll_eq_spec steps shape data t ht harity
+
+example : runSteps (⟨[("a", 2), ("b", 2)], [1, 2, 3, 4]⟩ : TVal String Nat)
+    [.reorder ["b", "a"], .map (· * 10), .reshape [("x", 4), ("y", 1)]] =
+      some ⟨[("x", 4), ("y", 1)], [10, 30, 20, 40]⟩ := by decide
+example : runSteps (⟨[("a", 2), ("b", 2)], [1, 2, 3, 4]⟩ : TVal String Nat)
+    [.reorder ["b", "b"]] = none := by decide
+
+/-! ### the "API surface" operations: every route's answer is the lazy view's value -/
+
+/-- Iterating any valid source with index (`WithIndex<…>` of all four iterator flavours) yields
+    every index tuple of the shape, in row-major order, each exactly once, paired with the
+    element the plain iterator yields at that position. -/
+theorem iterWithIndex_eq_zip (v : TView ν α) (hv : v.lazy.Valid) :
+    v.iterWithIndex = (allIndexes (v.shape.map (·.2))).zip v.iter ∧
+    v.iter.length = (allIndexes (v.shape.map (·.2))).length :=
+  ⟨EasyMl.iterWithIndex_eq_zip v hv, by
+    rw [v.iter_eq, hv.elems_length, allIndexes_length]; rfl⟩
+
+/-- … and the pairs are exactly "in-bounds index tuple, element the source has there": an index
+    is never paired with another tuple's element (for an access of a tensor that element is the
+    one whose coordinates match by name: `access_eq_reordered`, C01). -/
+theorem iterWithIndex_mem_iff (v : TView ν α) (idx : List Nat) (x : α) :
+    (idx, x) ∈ v.iterWithIndex ↔
+      inBounds (v.shape.map (·.2)) idx = true ∧ v.get idx = some x := by
+  rw [v.iterWithIndex_eq]
+  simp only [List.mem_filterMap, mem_allIndexes_iff, Option.map_eq_some_iff, Prod.mk.injEq]
+  constructor
+  · rintro ⟨i, hb, y, hy, rfl, rfl⟩; exact ⟨hb, hy⟩
+  · rintro ⟨hb, hx⟩; exact ⟨idx, hb, x, hx, rfl, rfl⟩
+
+/-- **`sread`**: what is read through a `TensorAccess` / `TensorTranspose` of a tensor — by
+    whichever route (inherent getters, the `TensorRef`/`TensorMut` trait methods, iterators) — is
+    the value of the reordered / transposed lazy view of `(shape, data)`. -/
+theorem surface_read_eq_view_value [Inhabited ν] (shape : Shape ν) (data : List α) (t : Tensor ν α)
+    (ht : Tensor.tryFrom shape data = some t) (names : List ν) (hp : IsOrdering shape names) :
+    (∃ a, t.view.access names = some a ∧
+      a.shape = (reordered (ofData shape data) names).shape ∧
+      a.iter = (materialise (reordered (ofData shape data) names)).elems) ∧
+    (∃ x, t.view.transposeView names = some x ∧
+      x.shape = (transposed (ofData shape data) names).shape ∧
+      x.iter = (materialise (transposed (ofData shape data) names)).elems) :=
+  read_access_eq shape data t ht names hp
+
+/-- **`swrite`**: after `(idx, x) ↦ f idx x` was written to every cell through a `TensorAccess`
+    (`map_mut*`, mutable iterators with index, mutable getters — the model's
+    `Access.mapMutWithIndex`), looking at the tensor again through the same access / transpose
+    shows the value of the mapped lazy view: the index handed to `f` is the one of the *view*,
+    whatever the ordering (non-involutive ones included). -/
+theorem surface_write_eq_mapped_view_value [Inhabited ν] (f : List Nat → α → α) (shape : Shape ν)
+    (data : List α) (t : Tensor ν α) (ht : Tensor.tryFrom shape data = some t) (names : List ν)
+    (a : Access ν α) (ha : t.indexBy names = some a) :
+    (∃ r, (a.mapMutWithIndex f).view.access names = some r ∧
+      r.shape = (reordered (ofData shape data) names).shape ∧
+      r.iter = (materialise (mappedWithIndex f (reordered (ofData shape data) names))).elems) ∧
+    (∃ x, (a.mapMutWithIndex f).view.transposeView names = some x ∧
+      x.shape = (transposed (ofData shape data) names).shape ∧
+      x.iter = (materialise (mappedWithIndex f (transposed (ofData shape data) names))).elems) :=
+  write_access_eq f shape data t ht names a ha
+
+/-- … and for the tensor itself. -/
+theorem surface_write_tensor_eq (f : List Nat → α → α) (shape : Shape ν) (data : List α)
+    (t : Tensor ν α) (ht : Tensor.tryFrom shape data = some t) :
+    (t.mapMutWithIndex f).view.shape = shape ∧
+    (t.mapMutWithIndex f).view.iter =
+      (materialise (mappedWithIndex f (ofData shape data))).elems :=
+  write_tensor_eq f shape data t ht
+
+/-- Non-vacuity: the 3-cycle ordering of a 2×3×2 tensor. -/
+example :
+    ∃ t a, Tensor.tryFrom [("a", 2), ("b", 3), ("c", 2)] (List.range 12) = some t ∧
+      t.indexBy ["c", "a", "b"] = some a ∧ IsOrdering [("a", 2), ("b", 3), ("c", 2)] ["c", "a", "b"] :=
+  ⟨_, _, rfl, rfl, by decide⟩
+
+/-! ### composition with C02 and C03 -/
+
+/-- **C13's lazy views are C02's view nodes.**  For any C02 view `s` as the source
+    (`TView.ofView s`: its `view_shape` and what reading through it returns), C13's
+    `TensorAccess` / `TensorTranspose` constructions are C02's `View.mkAccess` / `View.mkTranspose`
+    (same acceptance, same shape, same reads), and a C02 tensor leaf is C13's tensor source.  So
+    C02's theorems (cell equations, layouts) and C09's (iterators over views) apply to the views
+    this file speaks about, and this file's theorems (reorder / transpose / equality /
+    similarity of *any valid source*) apply to every composed C02 view meeting the contract. -/
+theorem lazy_views_are_C02_views [Inhabited ν] (s : View ν α) (names : List ν) :
+    (TView.ofView s).access names = (View.mkAccess s names).map TView.ofView ∧
+    (TView.ofView s).transposeView names = (View.mkTranspose s names).map TView.ofView ∧
+    ∀ (id : Nat) (t : Tensor ν α), TView.ofView (View.tensor id t) = t.view :=
+  ⟨access_ofView s names, transposeView_ofView s names, fun id t => ofView_tensor id t⟩
+
+/-- **C13's `elementwise` model is C03's operator model.**  `Tensor::elementwise*` (tensor on the
+    left, data read directly) and `TensorView::elementwise*` of this file equal C03's
+    `Arith.elementwise` at a tensor resp. view operand (`TView.toArith`), so C03's cell-level
+    theorems (`C03.elementwise_get`) and this file's value-level ones (`tensor_elementwise_eq`)
+    describe the same function. -/
+theorem elementwise_is_C03_operator [DecidableEq (Shape ν)] (f : α → α → α) (shape : Shape ν)
+    (data : List α) (t : Tensor ν α) (ht : Tensor.tryFrom shape data = some t) (l r : TView ν α)
+    (hr : r.lazy.Valid) :
+    t.elementwise f r = Arith.elementwise f (.tensor t) (.view r.toArith) ∧
+    l.elementwise f r = Arith.elementwise f (.view l.toArith) (.view r.toArith) :=
+  elementwise_eq_arith f shape data t ht l r hr
+
+/-- **In-place transformations followed by C03's operators.**  After any non-panicking history of
+    in-place transformations the tensor is a well-formed operand of C03's tensor operators
+    (`Arith.Operand.WF`, the hypothesis of `C03.elementwise_get`, `scalarOp_get`, `matMul_*`), and
+    the element sequence their direct iterators consume is the logical row-major content — so
+    "operator applied to the transformed tensor" is "operator applied to the transformed logical
+    content". -/
+theorem inplace_then_operators [Inhabited ν] (steps : List (InPlace ν α)) (shape : Shape ν)
+    (data : List α) (t t' : Tensor ν α) (ht : Tensor.tryFrom shape data = some t)
+    (harity : ∀ step ∈ steps, ∀ k, step.arity = some k → k = shape.length)
+    (h : t.applyAll steps = .ok t') :
+    (Arith.Operand.tensor t').WF ∧
+    (Arith.Operand.tensor t').seq = (materialise t'.view.lazy).elems :=
+  history_operand_wf steps shape data t t' ht harity h
+
+/-- Non-vacuity: a transposed-in-place square tensor is a well-formed C03 operand. -/
+example :
+    ∃ t t', Tensor.tryFrom [("a", 2), ("b", 2)] [1, 2, 3, 4] = some t ∧
+      t.applyAll [.transpose ["b", "a"]] = .ok t' ∧ (Arith.Operand.tensor t').WF ∧
+      (Arith.Operand.tensor t').seq = [1, 3, 2, 4] := by
+  refine ⟨_, _, rfl, rfl, ?_⟩
+  have h := inplace_then_operators (ν := String) (α := Nat) [.transpose ["b", "a"]]
+    [("a", 2), ("b", 2)] [1, 2, 3, 4] _ _ rfl (by intro st hst k hk; simp at hst; subst hst; simp [InPlace.arity] at hk; subst hk; rfl) rfl
+  exact ⟨h.1, rfl⟩
+
+example : (Tensor.ofVal ⟨[("a", 2), ("b", 2)], [5, 6, 7, 8]⟩ : Tensor String Nat).view.iterWithIndex =
+    [([0, 0], 5), ([0, 1], 6), ([1, 0], 7), ([1, 1], 8)] := by decide
+
+/-! ### the laws for tensors the constructors accept (hypotheses discharged by `view_valid`) -/
+
+/-- `==` is an equivalence relation on constructed tensors, and `similar` one containing it. -/
+theorem tensor_eq_similar_equivalences [DecidableEq α] [Inhabited ν] (s₁ s₂ s₃ : Shape ν)
+    (d₁ d₂ d₃ : List α) (t₁ t₂ t₃ : Tensor ν α) (h₁ : Tensor.tryFrom s₁ d₁ = some t₁)
+    (h₂ : Tensor.tryFrom s₂ d₂ = some t₂) (h₃ : Tensor.tryFrom s₃ d₃ = some t₃) :
+    tensorEquality t₁.view t₁.view = true ∧
+    (tensorEquality t₁.view t₂.view = true → tensorEquality t₂.view t₁.view = true) ∧
+    (tensorEquality t₁.view t₂.view = true → tensorEquality t₂.view t₃.view = true →
+      tensorEquality t₁.view t₃.view = true) ∧
+    tensorSimilarity t₁.view t₁.view = true ∧
+    (tensorSimilarity t₁.view t₂.view = true → tensorSimilarity t₂.view t₁.view = true) ∧
+    (tensorSimilarity t₁.view t₂.view = true → tensorSimilarity t₂.view t₃.view = true →
+      tensorSimilarity t₁.view t₃.view = true) ∧
+    (tensorEquality t₁.view t₂.view = true → tensorSimilarity t₁.view t₂.view = true) := by
+  have v₁ := (view_valid s₁ d₁ t₁ h₁).1
+  have v₂ := (view_valid s₂ d₂ t₂ h₂).1
+  have v₃ := (view_valid s₃ d₃ t₃ h₃).1
+  exact ⟨eq_refl _ v₁, eq_symm _ _ v₁ v₂, eq_trans _ _ _ v₁ v₂ v₃, similar_refl _ v₁,
+    similar_symm _ _ v₁ v₂, similar_trans _ _ _ v₁ v₂ v₃, eq_imp_similar _ _ v₁ v₂⟩
 
 end EasyMl.C13
